@@ -290,6 +290,8 @@ pub trait VersionedSerialize: Sized {
     
     /// Serialize with version information
     fn serialize_versioned<O: DataOutput>(&self, output: &mut O) -> Result<()> {
+        // deserialize_versioned() starts by reading this header
+        Self::current_version().serialize(output)?;
         let mut manager = VersionManager::new(Self::current_version());
         self.serialize_with_manager(&mut manager, output)
     }
@@ -482,10 +484,7 @@ impl VersionedSerializer {
     pub fn serialize_to_bytes<T: VersionedSerialize>(&self, value: &T) -> Result<Vec<u8>> {
         let mut output = crate::io::VecDataOutput::new();
         
-        // Write version header
-        T::current_version().serialize(&mut output)?;
-        
-        // Serialize the object
+        // Version header + object (serialize_versioned writes both)
         value.serialize_versioned(&mut output)?;
         
         Ok(output.into_vec())
